@@ -27,6 +27,8 @@ def one(arg):
 
 def main():
     props = [c["property_id"] for c in json.load(open(os.path.join(HERE, "MANIFEST.json")))["checks"]]
+    if os.environ.get("VF_PROPS"):
+        props = [p for p in props if p in os.environ["VF_PROPS"].split(",")]
     from multiprocessing import Pool
     jobs = [(r, p) for r in sys.argv[1:] for p in props]
     with Pool(16) as pool:
